@@ -3,6 +3,7 @@ package main
 import (
 	"encoding/json"
 	"fmt"
+	"math"
 	"os"
 	"path/filepath"
 	"sort"
@@ -24,7 +25,7 @@ func init() {
 // C19: explicit-state search over lease histories with logical time.
 //
 // Events (two holders h1,h2 competing for one lease key):
-//   acq(h,ttl)        ttl in {0.5s, 1s, 1.9s, 2s}
+//   acq(h,ttl)        ttl in {0.5s, 1s, 1.9s, 2s} and negative {-1ns,-999ms,-1s,-1.5s,-1h,MinInt64}
 //   ren(h,sel,ttl)    token selector sel in {zero, one (forged 1), own (latest grant of h),
 //   rel(h,sel)          stale (grant of h before the latest), other (latest grant of the other holder)}
 //   adv(d)            d in {0.4s, 1s, 2.5s}
@@ -38,6 +39,7 @@ type lev struct {
 	H   int    `json:"h,omitempty"`   // 0,1
 	Sel string `json:"sel,omitempty"` // zero one own stale other
 	D   int64  `json:"d,omitempty"`   // ttl or advance, milliseconds
+	Ns  int64  `json:"ns,omitempty"`  // ttl in nanoseconds when it is not a whole number of milliseconds / is negative (overrides D)
 	Via string `json:"via,omitempty"` // DHT leg only: node the request enters through ("A","B")
 }
 
@@ -51,13 +53,26 @@ func (e lev) label() string {
 	case "joinO", "joinN", "leave":
 		return e.T
 	case "acq":
+		if e.Ns != 0 {
+			return fmt.Sprintf("acq(h%d,%dns)", e.H+1, e.Ns)
+		}
 		return fmt.Sprintf("acq(h%d,%dms)", e.H+1, e.D)
 	case "ren":
+		if e.Ns != 0 {
+			return fmt.Sprintf("ren(h%d,%s,%dns)", e.H+1, e.Sel, e.Ns)
+		}
 		return fmt.Sprintf("ren(h%d,%s,%dms)", e.H+1, e.Sel, e.D)
 	case "rel":
 		return fmt.Sprintf("rel(h%d,%s)", e.H+1, e.Sel)
 	}
 	return fmt.Sprintf("adv(%dms)", e.D)
+}
+
+func (e lev) ttl() time.Duration {
+	if e.Ns != 0 {
+		return time.Duration(e.Ns)
+	}
+	return time.Duration(e.D) * time.Millisecond
 }
 
 func levLabels(p []lev) []string {
@@ -70,6 +85,9 @@ func levLabels(p []lev) []string {
 
 var (
 	c19TTLs = []int64{500, 1000, 1900, 2000}
+	// negative TTLs (nanoseconds): all must be refused like any TTL below one second
+	c19NegTTLs      = []int64{-1, -999e6, -1e9, -1500e6, -3600e9, math.MinInt64}
+	c19NegTTLsShort = []int64{-1e9, math.MinInt64} // for renew/release selectors that are never current
 	c19Advs = []int64{400, 1000, 2500}
 	c19Sels = []string{"zero", "one", "own", "stale", "other"}
 )
@@ -165,12 +183,12 @@ func (m *c19Model) stepVia(kv chord.LeaseKV, probe func() (uint64, error), key [
 		vtime.SetNowNanos(m.Now)
 		return c19Step{Class: "adv:" + st + "->" + m.status()}
 	case "acq":
-		ttl := time.Duration(e.D) * time.Millisecond
+		ttl := e.ttl()
 		tok, err := kv.Acquire(bg, key, ttl)
 		res = errName(err)
 		switch {
 		case ttl < time.Second:
-			ttlok, want = "ttl<1s", "err:lease-invalid-ttl"
+			ttlok, want = ttlClass(ttl), "err:lease-invalid-ttl"
 		case st == "free" || st == "expired":
 			want = "ok"
 		case st == "held":
@@ -193,7 +211,7 @@ func (m *c19Model) stepVia(kv chord.LeaseKV, probe func() (uint64, error), key [
 			}
 		}
 	case "ren":
-		ttl := time.Duration(e.D) * time.Millisecond
+		ttl := e.ttl()
 		prev := m.resolve(e.H, e.Sel)
 		tokrel = m.tokrel(prev)
 		tok, err := kv.Renew(bg, key, ttl, prev)
@@ -201,7 +219,7 @@ func (m *c19Model) stepVia(kv chord.LeaseKV, probe func() (uint64, error), key [
 		cur := m.Rec != nil && prev == m.Rec.Token
 		switch {
 		case ttl < time.Second:
-			ttlok, want = "ttl<1s", "err:lease-invalid-ttl"
+			ttlok, want = ttlClass(ttl), "err:lease-invalid-ttl"
 		case !cur || st == "expired":
 			want = "err:lease-expired"
 		case st == "held":
@@ -257,6 +275,18 @@ func (m *c19Model) stepVia(kv chord.LeaseKV, probe func() (uint64, error), key [
 		s.What = fmt.Sprintf("after %s (-> %s) the stored token is %d, the model's current token is %d", e.label(), res, stored, wantTok)
 	}
 	return s
+}
+
+func ttlClass(ttl time.Duration) string {
+	switch {
+	case ttl >= time.Second:
+		return "ttl-ok"
+	case ttl >= 0:
+		return "ttl<1s"
+	case ttl > -time.Second:
+		return "ttl-negative>-1s"
+	}
+	return "ttl<=-1s"
 }
 
 func wantHas(want, res string) bool {
@@ -413,6 +443,9 @@ func c19Events(tok [2][2]uint64) []lev {
 		for _, t := range c19TTLs {
 			out = append(out, lev{T: "acq", H: h, D: t})
 		}
+		for _, t := range c19NegTTLs {
+			out = append(out, lev{T: "acq", H: h, Ns: t})
+		}
 		seen := map[uint64]bool{}
 		for _, sel := range c19Sels {
 			v := m.resolve(h, sel)
@@ -422,6 +455,13 @@ func c19Events(tok [2][2]uint64) []lev {
 			seen[v] = true
 			for _, t := range c19TTLs {
 				out = append(out, lev{T: "ren", H: h, Sel: sel, D: t})
+			}
+			negs := c19NegTTLsShort
+			if sel == "own" || sel == "other" {
+				negs = c19NegTTLs
+			}
+			for _, t := range negs {
+				out = append(out, lev{T: "ren", H: h, Sel: sel, Ns: t})
 			}
 			out = append(out, lev{T: "rel", H: h, Sel: sel})
 		}
@@ -615,7 +655,7 @@ func c19(c *report.Check) {
 	c.Set("distinct_nontrivial", dist.N())
 	c.Set("samples", dist.Samples)
 	c.Set("exhaustive", true)
-	c.Set("rule", fmt.Sprintf("per backend (memory, aof, sqlite; degenerate hash with a colliding key holding a lease and a value; thorough also chord.Hash): BFS to depth %d over acq(h,ttl) x {h1,h2} x {0.5s,1s,1.9s,2s}, ren(h,token,ttl) and rel(h,token) with token in {0, forged 1, own latest, own previous, other holder's latest} (de-duplicated on the resolved value), adv in {0.4s,1s,2.5s}; states de-duplicated on (lease record relative to now, token memory of both holders); every transition replayed from a fresh lease key on the real store under a logical clock and judged by the timed lease model; after every step the stored token (Export) must equal the model's; class = (event, ttl validity, lease status, token relation, outcome)", depth))
+	c.Set("rule", fmt.Sprintf("per backend (memory, aof, sqlite; degenerate hash with a colliding key holding a lease and a value; thorough also chord.Hash): BFS to depth %d over acq(h,ttl) x {h1,h2} x {0.5s,1s,1.9s,2s, -1ns,-999ms,-1s,-1.5s,-1h,MinInt64}, ren(h,token,ttl) and rel(h,token) with token in {0, forged 1, own latest, own previous, other holder's latest} (de-duplicated on the resolved value), adv in {0.4s,1s,2.5s}; states de-duplicated on (lease record relative to now, token memory of both holders); every transition replayed from a fresh lease key on the real store under a logical clock and judged by the timed lease model; after every step the stored token (Export) must equal the model's; class = (event, ttl validity, lease status, token relation, outcome)", depth))
 	c.Assume("the lease files read the clock through verif/engine/vtime (import rewritten at build time); all other code is unchanged",
 		"a grant with ttl d expires at some instant in [now+floor(d), now+d]; an attempt made at an instant inside that window (for whole seconds: exactly at the expiry instant) may go either way, the model then follows the store and later outcomes must be consistent with what was observed",
 		"tokens are compared by value: a remembered token that coincides with the current token value counts as current (token values are expiry instants; coincidences are counted in token_value_coincidences)",
